@@ -677,6 +677,13 @@ def _c05_wrap(kind, body):
         m = Func('m', [('x', I64), ('y', I64), ('z', I64)], I64, body, recv=('s', RefT(ST, False)))
         tb = [Let('b', ST, StructLit(ST, {'V': Lit(1, I64)})), Return(MethodCall(Var('b', ST), 'm', [X, Y, Z], I64))]
         return fn3(tb, types=[ST], extra=[m])
+    if kind == 'mclash':
+        # the method shares its name with a top-level function of another (void) signature
+        ST = StructT('Box', [('V', I64)])
+        m = Func('m', [('x', I64), ('y', I64), ('z', I64)], I64, body, recv=('s', RefT(ST, False)))
+        free = Func('m', [], VOID, [])
+        tb = [Let('b', ST, StructLit(ST, {'V': Lit(1, I64)})), Return(MethodCall(Var('b', ST), 'm', [X, Y, Z], I64))]
+        return fn3(tb, types=[ST], extra=[free, m])
     if kind == 'lit':
         lf = Func('f', [('x', I64), ('y', I64), ('z', I64)], I64, body)
         tb = [FuncLitLet('f', lf), Return(Call('f', [X, Y, Z], I64))]
@@ -697,7 +704,7 @@ def c05(tier='quick', seed=0):
         sel = [s for s in shapes if s[0] in names1] + rnd.sample(rest, 400)
     meta = {'nonterm_ok': True}
     for name, f in sel:
-        kinds = ('fn', 'method', 'lit') if name in names1 else ('fn',)
+        kinds = ('fn', 'method', 'lit', 'mclash') if name in names1 else ('fn',)
         for kind in kinds:
             for tail in (False, True):
                 c = Ctx()
